@@ -675,6 +675,17 @@ func init() {
 			return F64(f(float64(x)))
 		})
 	}
+	// timers: the channel of a timer may deliver in any select that waits on it (time-outs are explored as choices)
+	reg("time.NewTimer", func(in *Interp, fr *frame, fn *ssa.Function, args []Value) Value {
+		tt := in.namedType("time", "Timer")
+		st := in.zero(tt).(Struct)
+		st[0] = &Chan{timer: true}
+		var v Value = st
+		return &v
+	})
+	reg("(*time.Timer).Stop", func(in *Interp, fr *frame, fn *ssa.Function, args []Value) Value { return in.tb.fls })
+	reg("(*time.Timer).Reset", func(in *Interp, fr *frame, fn *ssa.Function, args []Value) Value { return in.tb.fls })
+	reg("time.After", func(in *Interp, fr *frame, fn *ssa.Function, args []Value) Value { return &Chan{timer: true} })
 	reg("time.runtimeNano", func(in *Interp, fr *frame, fn *ssa.Function, args []Value) Value {
 		return in.tb.BV(64, 0)
 	})
